@@ -62,6 +62,7 @@ def check(rep: Report, ctx: Ctx) -> None:
     r516(rep, ctx)
     r517(rep, ctx)
     r518(rep, ctx)
+    r519(rep, ctx)
 
 
 # --------------------------------------------------------------------------
@@ -1330,3 +1331,16 @@ def r518(rep: Report, ctx: Ctx) -> None:
            node=calls[0].node if calls else fi.node,
            detail="; ".join(", ".join(c.args)[:200] for c in calls)
            or "<no ordering call>")
+
+
+def r519(rep: Report, ctx: Ctx) -> None:
+    """(shared with C01 R1.22)"""
+    from .c01 import r122
+    sub = Report("C01", ctx.index)
+    r122(sub, ctx)
+    rep.rule("R5.19", "kill paths and break points of a loop body are marked "
+             "from a scan of all its nodes (= C01 R1.22)", 5)
+    for o in sub.obligations:
+        o.rule = "R5.19"
+        rep.obligations.append(o)
+    rep.funcs_seen |= sub.funcs_seen
